@@ -190,7 +190,12 @@ Definition file_templates (f : soyfile) : list template :=
 
 Definition bundle_templates (fs : list soyfile) : list template := flat_map file_templates fs.
 
+(* side condition of Registry.Add that is not a data-reference rule: template names are unique *)
+Fixpoint distinct (l : list bstr) : bool :=
+  match l with [] => true | x :: r => negb (contains r x) && distinct r end.
+
 Definition wf_bundle (fs : list soyfile) : bool :=
   forallb (fun f => match namespace_of (sf_body f) with Some _ => true | None => false end) fs
   && forallb (fun f => forallb exclusive_params (with_prev None (sf_body f))) fs
+  && distinct (map t_name (bundle_templates fs))
   && wf_templates (bundle_templates fs).
